@@ -247,45 +247,58 @@ fn struct_fields(fs: &[Ty]) -> Fields {
 }
 
 macro_rules! prim_arr {
-    ($t:ty, $vals:expr, $dt:expr) => {{
-        let a: PrimitiveArray<$t> = $vals.iter().map(|v| as_i128(v).map(|x| x as <$t as ArrowPrimitiveType>::Native)).collect();
+    ($t:ty, $vals:expr, $dt:expr, $var:expr) => {{
+        let a: PrimitiveArray<$t> = if ($var >> 10) & 1 == 1 && $vals.iter().any(|v| *v == V::Null) {
+            // null slots hold arbitrary (row dependent) values instead of the default
+            let vals: Vec<<$t as ArrowPrimitiveType>::Native> = $vals
+                .iter()
+                .enumerate()
+                .map(|(row, v)| match as_i128(v) {
+                    Some(x) => x as <$t as ArrowPrimitiveType>::Native,
+                    None => (row as i128 * 37 + 1) as <$t as ArrowPrimitiveType>::Native,
+                })
+                .collect();
+            PrimitiveArray::<$t>::new(vals.into(), Some(NullBuffer::from($vals.iter().map(|v| *v != V::Null).collect::<Vec<bool>>())))
+        } else {
+            $vals.iter().map(|v| as_i128(v).map(|x| x as <$t as ArrowPrimitiveType>::Native)).collect()
+        };
         Arc::new(a.with_data_type($dt)) as ArrayRef
     }};
 }
 
-fn build_prim(p: &str, vals: &[V], dt: DataType) -> ArrayRef {
+fn build_prim(p: &str, vals: &[V], dt: DataType, var: u64) -> ArrayRef {
     match p {
-        "i8" => prim_arr!(Int8Type, vals, dt),
-        "i16" => prim_arr!(Int16Type, vals, dt),
-        "i32" => prim_arr!(Int32Type, vals, dt),
-        "i64" => prim_arr!(Int64Type, vals, dt),
-        "u8" => prim_arr!(UInt8Type, vals, dt),
-        "u16" => prim_arr!(UInt16Type, vals, dt),
-        "u32" => prim_arr!(UInt32Type, vals, dt),
-        "u64" => prim_arr!(UInt64Type, vals, dt),
-        "d32" => prim_arr!(Decimal32Type, vals, dt),
-        "d64" => prim_arr!(Decimal64Type, vals, dt),
-        "d128" => prim_arr!(Decimal128Type, vals, dt),
+        "i8" => prim_arr!(Int8Type, vals, dt, var),
+        "i16" => prim_arr!(Int16Type, vals, dt, var),
+        "i32" => prim_arr!(Int32Type, vals, dt, var),
+        "i64" => prim_arr!(Int64Type, vals, dt, var),
+        "u8" => prim_arr!(UInt8Type, vals, dt, var),
+        "u16" => prim_arr!(UInt16Type, vals, dt, var),
+        "u32" => prim_arr!(UInt32Type, vals, dt, var),
+        "u64" => prim_arr!(UInt64Type, vals, dt, var),
+        "d32" => prim_arr!(Decimal32Type, vals, dt, var),
+        "d64" => prim_arr!(Decimal64Type, vals, dt, var),
+        "d128" => prim_arr!(Decimal128Type, vals, dt, var),
         "d256" => {
             let a: PrimitiveArray<Decimal256Type> =
                 vals.iter().map(|v| match v { V::Null => None, V::Int(i) => Some(*i), _ => panic!() }).collect();
             Arc::new(a.with_data_type(dt))
         }
-        "date32" => prim_arr!(Date32Type, vals, dt),
-        "date64" => prim_arr!(Date64Type, vals, dt),
-        "ts_s" => prim_arr!(TimestampSecondType, vals, dt),
-        "ts_ms" => prim_arr!(TimestampMillisecondType, vals, dt),
-        "ts_us" => prim_arr!(TimestampMicrosecondType, vals, dt),
-        "ts_ns" => prim_arr!(TimestampNanosecondType, vals, dt),
-        "dur_s" => prim_arr!(DurationSecondType, vals, dt),
-        "dur_ms" => prim_arr!(DurationMillisecondType, vals, dt),
-        "dur_us" => prim_arr!(DurationMicrosecondType, vals, dt),
-        "dur_ns" => prim_arr!(DurationNanosecondType, vals, dt),
-        "t32s" => prim_arr!(Time32SecondType, vals, dt),
-        "t32ms" => prim_arr!(Time32MillisecondType, vals, dt),
-        "t64us" => prim_arr!(Time64MicrosecondType, vals, dt),
-        "t64ns" => prim_arr!(Time64NanosecondType, vals, dt),
-        "iym" => prim_arr!(IntervalYearMonthType, vals, dt),
+        "date32" => prim_arr!(Date32Type, vals, dt, var),
+        "date64" => prim_arr!(Date64Type, vals, dt, var),
+        "ts_s" => prim_arr!(TimestampSecondType, vals, dt, var),
+        "ts_ms" => prim_arr!(TimestampMillisecondType, vals, dt, var),
+        "ts_us" => prim_arr!(TimestampMicrosecondType, vals, dt, var),
+        "ts_ns" => prim_arr!(TimestampNanosecondType, vals, dt, var),
+        "dur_s" => prim_arr!(DurationSecondType, vals, dt, var),
+        "dur_ms" => prim_arr!(DurationMillisecondType, vals, dt, var),
+        "dur_us" => prim_arr!(DurationMicrosecondType, vals, dt, var),
+        "dur_ns" => prim_arr!(DurationNanosecondType, vals, dt, var),
+        "t32s" => prim_arr!(Time32SecondType, vals, dt, var),
+        "t32ms" => prim_arr!(Time32MillisecondType, vals, dt, var),
+        "t64us" => prim_arr!(Time64MicrosecondType, vals, dt, var),
+        "t64ns" => prim_arr!(Time64NanosecondType, vals, dt, var),
+        "iym" => prim_arr!(IntervalYearMonthType, vals, dt, var),
         "idt" => {
             let a: PrimitiveArray<IntervalDayTimeType> = vals
                 .iter()
@@ -486,7 +499,7 @@ fn build_list(kind: &str, inner: &Ty, vals: &[V], var: u64) -> ArrayRef {
 /// build without slicing
 fn build_raw(ty: &Ty, vals: &[V], var: u64) -> ArrayRef {
     match ty {
-        Ty::Prim(p) => build_prim(p, vals, data_type(ty)),
+        Ty::Prim(p) => build_prim(p, vals, data_type(ty), var),
         Ty::Bytes(b) => build_bytes(b, vals),
         Ty::Fsb(n) => Arc::new(
             FixedSizeBinaryArray::try_from_sparse_iter_with_size(vals.iter().map(bytes_of), *n as i32).expect("fsb"),
@@ -555,7 +568,9 @@ fn long_filler(ty: &Ty) -> V {
 /// build the array for `vals` in the physical variant `var`:
 /// bits 0-1 leading pad rows, bit 2 trailing pad row, bit 3 pads are nulls (else copies),
 /// bits 4-5 dictionary / run layout, bit 6 explicit all-valid null buffer on nested types,
-/// bit 7 (views) force a data buffer via a long trailing pad value.
+/// bit 7 (views) force a data buffer via a long trailing pad value, bit 8 pass `None` options
+/// when they are the default, bit 9 `sort` instead of `sort_limit`, bit 10 arbitrary values
+/// under null slots of integer-backed primitives.
 fn build(ty: &Ty, vals: &[V], var: u64) -> ArrayRef {
     let front = (var & 3) as usize;
     let mut back = ((var >> 2) & 1) as usize;
@@ -948,7 +963,7 @@ fn gen_float(w: u8, rng: &mut Rng) -> V {
 fn gen_bytes(utf8: bool, rng: &mut Rng, base: &[u8]) -> V {
     // prefixes of a shared base around the 4-byte prefix and the 12-byte inline limit, with
     // occasional changes / extensions (trailing zero bytes matter for padded keys)
-    let lens = [0usize, 1, 2, 3, 4, 5, 8, 11, 12, 13, 14, 16, 20];
+    let lens = [0usize, 1, 2, 3, 4, 5, 6, 7, 8, 11, 12, 13, 14, 16, 20];
     let l = (*rng.pick(&lens)).min(base.len());
     let mut b = base[..l].to_vec();
     match rng.below(6) {
@@ -1073,7 +1088,7 @@ fn gen_opts(rng: &mut Rng) -> SortOptions {
     SortOptions { descending: rng.bool(), nulls_first: rng.bool() }
 }
 fn gen_var(rng: &mut Rng) -> u64 {
-    if rng.chance(1, 4) { 0 } else { rng.below(1024) }
+    if rng.chance(1, 4) { 0 } else { rng.below(2048) }
 }
 fn ty_tags(t: &Ty) -> String {
     match t {
@@ -1300,7 +1315,7 @@ fn main() {
         }
     } else {
         let mut rng = Rng::new(args.seed ^ 0xC10);
-        let n = n_cases(&args, 6000, 120000);
+        let n = n_cases(&args, 20000, 400000);
         for _ in 0..n {
             let (line, tags) = gen_case(&mut rng);
             emit(&mut sink, line, &tags);
